@@ -171,10 +171,15 @@ def write_evidence(pid, level, tier, seed, cov, assumptions, wall, nviol, extra=
         if (SCHEMA_DIR / 'EVIDENCE.schema.json').exists() else \
         json.loads((ROOT / 'vf' / 'EVIDENCE.schema.json').read_text())
     jsonschema.validate(ev, schema)
-    EVIDENCE_DIR.mkdir(exist_ok=True)
-    tmp = EVIDENCE_DIR / f'.{pid}.json.tmp'
+    # evidence under /verif/evidence describes /repo only: runs against a scratch tree (mutation experiments
+    # through VERIF_REPO) write theirs to a scratch location instead
+    evdir = EVIDENCE_DIR
+    if os.environ.get('VERIF_REPO', '/repo').rstrip('/') != '/repo':
+        evdir = Path(tempfile.gettempdir()) / 'verif_evidence_scratch'
+    evdir.mkdir(exist_ok=True)
+    tmp = evdir / f'.{pid}.json.tmp'
     tmp.write_text(json.dumps(ev, indent=1, sort_keys=True) + '\n')
-    tmp.replace(EVIDENCE_DIR / f'{pid}.json')
+    tmp.replace(evdir / f'{pid}.json')
     return ev
 
 
